@@ -173,7 +173,26 @@ def table(repo, build_dir, variant="fast"):
             rows.append({"name": o["name"], "file": r["src"], "section": "not-writable-in-build", "size": 0, "type": o["type"],
                          "scope": ("static-in:" + o["func"]) if o["func"] else ("static" if o["static"] else "extern"),
                          "writers": writers_of(r["src"], o["name"], o["static"] or bool(o["func"]))})
+    # ---- process-wide state inside libc: calls of functions that return / use a static buffer or hidden global state
+    #      (gmtime, localtime, ctime, asctime, strtok, rand, strerror, getenv, gethostbyname, dlerror ...).  One row per
+    #      function, "written" by every library function that calls it.
+    lib = {}
+    for r in recs:
+        for c in r["calls"]:
+            if c["callee"] in NONREENTRANT and (c["file"] or "").startswith(("src/", "include/")):
+                lib.setdefault(c["callee"], set()).add((os.path.basename(c["file"]), str(c["func"]), c["line"], "calls non-reentrant libc function"))
+    for fn in sorted(lib):
+        rows.append({"name": "libc:" + fn, "file": "libc", "section": "libc-static", "size": 0, "type": "hidden static state of %s()" % fn, "scope": "extern",
+                     "writers": sorted(lib[fn])})
     return rows, stats
+
+
+# libc functions that are not required to be re-entrant (POSIX.1-2017 2.9.1 list, the ones a C library like this could meet)
+NONREENTRANT = {"gmtime", "localtime", "asctime", "ctime", "strtok", "rand", "srand", "random", "srandom", "drand48", "lrand48", "mrand48", "strerror",
+                "getenv", "setenv", "putenv", "unsetenv", "inet_ntoa", "gethostbyname", "gethostbyaddr", "getservbyname", "getservbyport", "getprotobyname",
+                "readdir", "setlocale", "localeconv", "nl_langinfo", "tmpnam", "ttyname", "getpwnam", "getpwuid", "getgrnam", "getgrgid", "getlogin",
+                "dlerror", "basename", "dirname", "ecvt", "fcvt", "gcvt", "l64a", "a64l", "lgamma", "strsignal", "crypt", "ptsname", "getopt", "getdate",
+                "hsearch", "wcstombs", "mbtowc", "wctomb", "mblen", "mbrlen", "wcrtomb", "getc_unlocked", "putc_unlocked", "getchar_unlocked", "putchar_unlocked"}
 
 
 def emit(rows, path=None):
